@@ -47,7 +47,7 @@ func truthSpec() map[string]spec.V {
 		"st":   {K: "struct", M: map[string]spec.V{"Name": {K: "string", S: "Ann"}}},
 		"t":    {K: "time", S: "2024-02-29T12:34:56Z"},
 		"t2":   {K: "time", S: "1999-12-31T23:59:59Z", Z: "Asia/Shanghai"},
-		"t0":   {K: "time", S: "1970-01-01T00:00:00Z"},
+		"t0":   {K: "time", S: "0001-01-01T00:00:00Z"}, // Go's zero time.Time: a time like any other
 		"fn0":  {K: "func", F: &spec.Fn{Name: "fn0", Ret: "int", RetS: "7"}},
 		"rec":  {K: "func", F: &spec.Fn{Name: "rec", Params: []string{"int"}, Ret: "nil"}},
 	}
